@@ -558,6 +558,73 @@ func c16Scenarios(tier string) []*world.Scenario {
 			out = append(out, sc)
 		}
 	}
+	// after the timeout the stalled node's connection is lost while the NEXT request (which reuses the recycled request
+	// object) is still in flight to a healthy node: the timed-out fragment left on the dead connection must not fail it
+	for _, kind := range []string{"backend-close", "backend-rst"} {
+		for _, second := range []string{"get", "mget"} {
+			stalled := keysA[0]
+			r1 := GetReq(stalled)
+			r1.Expect = []byte(world.RErrTimeout)
+			var r2 Req
+			slow := keysB[1]
+			if second == "get" {
+				r2 = GetReq(slow)
+			} else {
+				r2 = MGetReq(slow, keysC[1])
+			}
+			r3 := GetReq(keysC[3])
+			cs := ClientOf([]Req{r1, r2, r3}, false)
+			// the first byte of the next request is the event after which the loop examines the deadlines (it does so
+			// only after an event); the rest follows once the timeout error has arrived and the object is recycled
+			cs.Chunks = []world.Chunk{{Data: r1.Bytes}, {Data: r2.Bytes[:1], WaitTicks: 1}, {Data: r2.Bytes[1:], WaitTicks: 1, WaitReplies: 1},
+				{Data: r3.Bytes, WaitTicks: 2, WaitReplies: 2}}
+			sc := &world.Scenario{Nodes: T3m(), Bound: b, Horizon: 300, TimeoutMs: 100, Clients: []world.ClientSpec{cs},
+				Ticks: []time.Duration{150 * time.Millisecond, time.Millisecond}, Family: "connection-lost-after-timeout",
+				Faults: []world.Fault{{Kind: kind, Addr: AddrA, AfterW: 1, AfterTicks: 1,
+					Gate: func(w *world.World) bool { return len(w.DataCmds(AddrB)) >= 1 }}}} // the next request is on its way
+			sc.TickGate = func(w *world.World) bool {
+				if w.Ticks == 0 {
+					return len(w.DataCmds("")) >= 1
+				}
+				// second tick (releases the healthy node's reply): only after the dead connection has been torn down
+				if !w.FaultsDone() || len(w.DataCmds(AddrB)) < 1 {
+					return false
+				}
+				for _, bc := range w.BConns {
+					if bc.Addr == AddrA && len(bc.Log) > 0 && world.Lower(bc.Log[len(bc.Log)-1].Args[0]) == "get" && !bc.Sock.Closed {
+						return false
+					}
+				}
+				return true
+			}
+			sc.Reply = func(w *world.World, bc *world.BConn, args [][]byte) ([]byte, int) {
+				if hasKey(args, stalled) {
+					return world.DefaultReply(world.Lower(args[0]), args), -1
+				}
+				if hasKey(args, slow) {
+					return world.DefaultReply(world.Lower(args[0]), args), 2
+				}
+				return nil, 0
+			}
+			sc.Name = fmt.Sprintf("C16/connection-lost-after-timeout/%s/then-%s/d%d", kind, second, b)
+			sc.Check = func(w *world.World) []world.Violation {
+				// the stalled request itself: the timeout error, or the connection-lost error when the loss is noticed first
+				vs := CheckStreams(w, StreamOpts{AnyError: func(ci, j int) bool { return j == 0 }})
+				for i := range vs {
+					switch vs[i].Sig {
+					case "missing-tail", "closed-with-pending", "unexpected-close":
+						vs[i].Sig = "queue-stuck-after-timeout"
+					case "corrupt", "forwarded-swap":
+						vs[i].Sig = "request-after-timeout-answered-wrongly"
+					case "duplicate", "extra-bytes":
+						vs[i].Sig = "timeout-duplicated-or-late-reply-delivered"
+					}
+				}
+				return vs
+			}
+			out = append(out, sc)
+		}
+	}
 	return out
 }
 
@@ -933,7 +1000,7 @@ func init() {
 		Scenarios: c15Scenarios, BudgetQuick: 100, BudgetThorough: 1500,
 		Assumptions: []string{"'forever' = until no event is left and two further clock ticks have been granted"}})
 	register(&Check{ID: "C16", Level: "fault_enumeration",
-		Rule:      "timeout 100 ms; pipelines {A; A,B; B,A; A,B,A; MGET A+B; MGET,A; A,DEL A+B} x EVERY non-empty subset of fragments whose node stalls (forever, or answering after the deadline) x placement of the clock tick and of a wake-up request at every position within the bound; oracle: each stalled request is answered by exactly one timeout error in its pipeline position, the others by their real replies, late replies produce no bytes, the follow-up request is answered; non-trivial = >= 1 non-default choice; distinct = observable outcomes; plus: a GET / split MGET times out, its request object is recycled, the late reply arrives before or while the NEXT request (GET, or MGET/DEL/MSET split over two other nodes answering at different times) uses that object: it and the request after it are answered completely and correctly",
+		Rule:      "timeout 100 ms; pipelines {A; A,B; B,A; A,B,A; MGET A+B; MGET,A; A,DEL A+B} x EVERY non-empty subset of fragments whose node stalls (forever, or answering after the deadline) x placement of the clock tick and of a wake-up request at every position within the bound; oracle: each stalled request is answered by exactly one timeout error in its pipeline position, the others by their real replies, late replies produce no bytes, the follow-up request is answered; non-trivial = >= 1 non-default choice; distinct = observable outcomes; plus: a GET / split MGET times out, its request object is recycled, the late reply arrives before or while the NEXT request (GET, or MGET/DEL/MSET split over two other nodes answering at different times) uses that object: it and the request after it are answered completely and correctly; plus: after the timeout the stalled node's connection is lost (FIN/RST) while the next request, which reuses the recycled object, is in flight to a healthy node whose reply comes afterwards",
 		Scenarios: c16Scenarios, BudgetQuick: 100, BudgetThorough: 1500,
 		Assumptions: []string{"a node that stalls on one command does not answer later commands on the same connection either (Redis executes sequentially)", "virtual clock; msgTimeout only runs after an event, so a wake-up request follows the tick"}})
 	register(&Check{ID: "C20", Level: "model_checking",
